@@ -221,7 +221,8 @@ impl Validation {
         }
 
         // Must be all digits, or start with - followed by digits
-        if let Some(digits) = index.strip_prefix('-') {
+        // Negative (-1) and tilde (~1) notations both count from the end
+        if let Some(digits) = index.strip_prefix('-').or_else(|| index.strip_prefix('~')) {
             // Negative index: -1, -2, etc.
             !digits.is_empty() && digits.chars().all(|c| c.is_ascii_digit())
         } else {
